@@ -40,10 +40,12 @@ import (
 )
 
 type vftlsCfg struct {
-	Min  int    `json:"min"`
-	Max  int    `json:"max"`
-	Auth string `json:"auth"`
-	CA   bool   `json:"ca"`
+	Min    int    `json:"min"`
+	Max    int    `json:"max"`
+	Auth   string `json:"auth"`
+	CA     bool   `json:"ca"`
+	Skip   bool   `json:"skip"`   // InsecureSkipVerify
+	Suites string `json:"suites"` // "default" (empty list) | "listed" (DefaultTLSConfig's list)
 }
 
 type vftlsCl struct {
@@ -278,12 +280,18 @@ type vftlsServer struct {
 	n      *AbsfsNFS
 	srv    *Server
 	addr   string
-	caller *TLSConfig // the object handed to New
+	caller *TLSConfig    // the object handed to New
+	pre    ExportOptions // GetExportOptions() taken before Listen and kept
+	held   ExportOptions // GetExportOptions() taken right after Listen and kept
 }
 
 func (p *vftlsPKI) start(t testing.TB, c vftlsCfg) (*vftlsServer, error) {
 	cf, kf := p.install(t, "A")
-	tc := &TLSConfig{Enabled: true, CertFile: cf, KeyFile: kf, ClientAuth: vftlsAuth(c.Auth), MinVersion: vftlsVer(c.Min), MaxVersion: vftlsVer(c.Max)}
+	tc := &TLSConfig{Enabled: true, CertFile: cf, KeyFile: kf, ClientAuth: vftlsAuth(c.Auth), MinVersion: vftlsVer(c.Min), MaxVersion: vftlsVer(c.Max),
+		InsecureSkipVerify: c.Skip}
+	if c.Suites == "listed" {
+		tc.CipherSuites = DefaultTLSConfig().CipherSuites
+	}
 	if c.CA {
 		tc.CAFile = p.caFile
 	}
@@ -292,6 +300,7 @@ func (p *vftlsPKI) start(t testing.TB, c vftlsCfg) (*vftlsServer, error) {
 		return nil, err
 	}
 	n.logger.SetOutput(io.Discard)
+	pre := n.GetExportOptions() // an application may read its settings back before it starts listening
 	srv, err := NewServer(ServerOptions{Name: "vf", Port: 0, Hostname: "127.0.0.1", UseRecordMarking: true})
 	if err != nil {
 		n.Close()
@@ -303,7 +312,7 @@ func (p *vftlsPKI) start(t testing.TB, c vftlsCfg) (*vftlsServer, error) {
 		n.Close()
 		return nil, err
 	}
-	return &vftlsServer{n: n, srv: srv, addr: srv.listener.Addr().String(), caller: tc}, nil
+	return &vftlsServer{n: n, srv: srv, addr: srv.listener.Addr().String(), caller: tc, pre: pre, held: n.GetExportOptions()}, nil
 }
 
 func (s *vftlsServer) stop() {
@@ -334,7 +343,8 @@ func TestVF_TLS(t *testing.T) {
 		}
 		vecs = append(vecs, v)
 	}
-	every := vfEnvInt("VF_TLS_EVERY", 1) // client sampling: every k-th client per configuration (offset by seed)
+	every := vfEnvInt("VF_TLS_EVERY", 1)            // client sampling for configurations with InsecureSkipVerify / a cipher-suite list
+	everyPlain := vfEnvInt("VF_TLS_EVERY_PLAIN", 1) // client sampling for the others
 	seed := int(vfSeed() % 1000)
 	pki := vftlsNewPKI(t)
 	tr := vfNewTrace(t, "tls.ndjson")
@@ -353,9 +363,13 @@ func TestVF_TLS(t *testing.T) {
 		}
 		okSeen, failSeen := false, false
 		for ci, c := range v.Clients {
-			if every > 1 { // a seeded pseudo-random 1/every of the clients of this configuration
+			k := everyPlain
+			if v.Cfg.Skip || v.Cfg.Suites != "default" {
+				k = every
+			}
+			if k > 1 { // a seeded pseudo-random 1/k of the clients of this configuration
 				h := uint32(vi*7919+ci*104729+seed*31337) * 2654435761
-				if int((h>>13)%uint32(every)) != 0 {
+				if int((h>>13)%uint32(k)) != 0 {
 					continue
 				}
 			}
@@ -386,8 +400,15 @@ func TestVF_TLS(t *testing.T) {
 		{{"rotate", "B"}, {"reload_caller", ""}, {"hs", ""}, {"reload_snapshot", ""}, {"hs", ""}},
 		// reload with unchanged files is harmless; rotate back to A
 		{{"reload_snapshot", ""}, {"hs", ""}, {"rotate", "C"}, {"rotate", "A"}, {"reload_snapshot", ""}, {"hs", ""}, {"rotate", "B"}, {"reload_snapshot", ""}, {"hs", ""}},
+		// the TLS settings were read back before Listen and kept: every rotation goes through that object
+		{{"hs", ""}, {"rotate", "B"}, {"reload_presnapshot", ""}, {"hs", ""}, {"rotate", "C"}, {"reload_presnapshot", ""}, {"hs", ""}},
+		// settings read back once after Listen and kept
+		{{"rotate", "C"}, {"reload_held", ""}, {"hs", ""}, {"rotate", "A"}, {"reload_held", ""}, {"hs", ""}},
+		// the options read back before Listen are written back (UpdateExportOptions), then the documented step
+		{{"update_from_presnapshot", ""}, {"hs", ""}, {"rotate", "B"}, {"reload_snapshot", ""}, {"hs", ""}, {"rotate", "C"}, {"reload_presnapshot", ""}, {"hs", ""}},
 	}
-	rotCfgs := []vftlsCfg{{Min: 12, Max: 13, Auth: "none"}, {Min: 0, Max: 0, Auth: "requireAndVerify", CA: true}, {Min: 13, Max: 13, Auth: "request"}}
+	rotCfgs := []vftlsCfg{{Min: 12, Max: 13, Auth: "none", Suites: "default"}, {Min: 0, Max: 0, Auth: "requireAndVerify", CA: true, Suites: "default"},
+		{Min: 13, Max: 13, Auth: "request", Suites: "listed"}, {Min: 12, Max: 12, Auth: "verifyIfGiven", CA: true, Skip: true, Suites: "default"}}
 	nrot := 0
 	for hi, h := range rotHist {
 		c := rotCfgs[hi%len(rotCfgs)]
@@ -411,6 +432,20 @@ func TestVF_TLS(t *testing.T) {
 				if opts.TLS == nil {
 					m["ok"], m["err"] = false, "GetExportOptions().TLS is nil"
 				} else if err := opts.TLS.ReloadCertificates(); err != nil {
+					m["ok"], m["err"] = false, err.Error()
+				}
+			case "reload_presnapshot", "reload_held":
+				o := s.pre
+				if st[0] == "reload_held" {
+					o = s.held
+				}
+				if o.TLS == nil {
+					m["ok"], m["err"] = false, "GetExportOptions().TLS is nil"
+				} else if err := o.TLS.ReloadCertificates(); err != nil {
+					m["ok"], m["err"] = false, err.Error()
+				}
+			case "update_from_presnapshot":
+				if err := s.n.UpdateExportOptions(s.pre); err != nil {
 					m["ok"], m["err"] = false, err.Error()
 				}
 			case "reload_caller":
